@@ -334,7 +334,10 @@ func (s *sched) freeRun() {
 func (s *sched) loop() {
 	max := s.cfg.MaxSteps
 	if max == 0 {
-		max = 200000
+		// a livelock bound, not a workload bound: the longest legitimate runs seen
+		// (dual contouring of a 24^3 lattice with a scheduling point in one Contains
+		// call out of seven) take several hundred thousand decisions
+		max = 3000000
 	}
 	h := sha1.New()
 	s.last = -1
